@@ -15,6 +15,47 @@
 
   `holds evs obs`: the observed list has no duplicate label tuples, every observed sample is
   the expected one, and every expected series is observed.
+
+  ## Prefix Information options with a malformed length (129..255)
+
+  The statement says "labelled by the prefix in CIDR form".  A length byte above 128 — which
+  `ndp` v1.1.0 decodes without complaint, so any on-link host can deliver one — denotes no IPv6
+  prefix and has no CIDR form; the statement cannot be met for such an option and does not say
+  what is to happen with it.  DECISION: such an option is OUTSIDE "prefix in CIDR form".  The
+  oracle therefore neither demands a series for it nor forbids the one the present code writes
+  (the literal label `invalid Prefix`, `PLabel.invalid`; all malformed options of one router
+  collide on it, the last one written wins — that is the *model's* business,
+  `Model.monitorHandle`, and is compared with the implementation sample by sample by the
+  correspondence check, not by this oracle).  What `holds` requires in their presence, exactly:
+
+   1. No crash.  (A panic never produces an observation: the harness records the scenario as
+      pending before running it and `check` reports it as the failing input.  In the model,
+      `Props.C18.never_fails` has no length hypothesis.)
+   2. Every series that is NOT one of the four prefix gauges under `PLabel.invalid` is bound
+      exactly as above: the message counters count the RA, the flag and default-route gauges
+      follow it, and every well-formed option of the same RA (also one with the same address as
+      a malformed one) is reported with exactly its values under its own `addr/len` label; none
+      of these may be missing, wrong or duplicated, and no other series may exist.  In
+      particular a series labelled `addr/len` with `len > 128` must not exist
+      (`expected = none`: no option ever has that label), and a well-formed series must not be
+      overwritten by a malformed option.
+   3. A prefix gauge under `PLabel.invalid` for router `r` MAY exist, with any value, but only
+      if `r` did send a Prefix Information option with a malformed length (`sentMalformed`);
+      otherwise it is a series that describes nothing and is rejected like any other.  It is
+      never required: an implementation that skips or rejects malformed options satisfies the
+      oracle as well.
+
+  `expected`, `raGauge`, `lastPI?` and `touched` are nevertheless defined for `PLabel.invalid`
+  too, where they describe what the present code does (last malformed option wins); the
+  theorems of `Props/C18.lean` use them to state the model's behaviour in full.  `holds` does
+  not consult them for those series (`outOfScope`).
+
+  For sequences in which every Prefix Information length is ≤ 128 (`wellFormedLens`) none of
+  this applies: `sentMalformed` is false everywhere, `PLabel.invalid` series are rejected, and
+  `holds` is the exact oracle it was (`Props.C18.holds_unique_wellFormed`).
+
+  Route Information options are not read by the monitor at all; one with length > 128 is
+  rejected by the decoder together with the whole message (the message is then not "received").
 -/
 import Corerad.Model.Monitor
 
@@ -26,16 +67,30 @@ open Corerad Corerad.Model.Monitor
 def prefixesOf (ra : RA) : List PI :=
   ra.options.filterMap fun | .pi p => some p | .other _ => none
 
+/-- every Prefix Information length of the RA denotes an IPv6 prefix (≤ 128) -/
+def wellFormedRA (ra : RA) : Bool := (prefixesOf ra).all fun p => !p.malformed
+
+/-- … of the message (anything but an RA carries no such option) -/
+def wellFormedMsg : Msg → Bool
+  | .ra ra => wellFormedRA ra
+  | .other _ => true
+
+/-- … of every message of the sequence: the inputs for which "the prefix in CIDR form" exists
+    throughout -/
+def wellFormedLens (evs : List Event) : Bool := evs.all fun e => wellFormedMsg e.msg
+
 /-- expiry timestamp in whole seconds: the floor of `(now + lt) / 1 s` -/
 def expiry (now : Time) (lt : Dur) : Int := (now + lt) / second
 
-/-- last Prefix Information option for `(addr,len)` in a list (later options override) -/
-def lastPI? (a l : Nat) : List PI → Option PI
+/-- last Prefix Information option labelled `pl` in a list (later options override).
+    For `pl = .cidr a l` these are the options with address `a` and length `l ≤ 128`
+    (`Props.C18.label_eq_cidr_iff`); for `.invalid`, all malformed ones. -/
+def lastPI? (pl : PLabel) : List PI → Option PI
   | [] => none
   | p :: r =>
-    match lastPI? a l r with
+    match lastPI? pl r with
     | some q => some q
-    | none => if p.addr = a ∧ p.len = l then some p else none
+    | none => if p.label = pl then some p else none
 
 /-- the sender a series is labelled with -/
 def seriesHost : Series → Nat
@@ -43,10 +98,19 @@ def seriesHost : Series → Nat
   | .flagManaged h => h
   | .flagOther h => h
   | .defaultRoute h => h
-  | .prefixAutonomous _ _ h => h
-  | .prefixOnLink _ _ h => h
-  | .prefixPreferred _ _ h => h
-  | .prefixValid _ _ h => h
+  | .prefixAutonomous _ h => h
+  | .prefixOnLink _ h => h
+  | .prefixPreferred _ h => h
+  | .prefixValid _ h => h
+
+/-- the series the statement does not speak about: prefix gauges under the literal label
+    `invalid Prefix` -/
+def outOfScope : Series → Bool
+  | .prefixAutonomous .invalid _ => true
+  | .prefixOnLink .invalid _ => true
+  | .prefixPreferred .invalid _ => true
+  | .prefixValid .invalid _ => true
+  | _ => false
 
 /-- What an RA received at `now` says about gauge `s` of its own sender (`none`: nothing). -/
 def raGauge (ra : RA) (now : Time) : Series → Option Int
@@ -55,10 +119,10 @@ def raGauge (ra : RA) (now : Time) : Series → Option Int
   | .flagOther _ => some (b2i ra.other)
   | .defaultRoute _ =>
     if ra.routerLifetime ≠ 0 then some (expiry now ra.routerLifetime) else none
-  | .prefixAutonomous a l _ => (lastPI? a l (prefixesOf ra)).map fun p => b2i p.autonomous
-  | .prefixOnLink a l _ => (lastPI? a l (prefixesOf ra)).map fun p => b2i p.onLink
-  | .prefixPreferred a l _ => (lastPI? a l (prefixesOf ra)).map fun p => expiry now p.preferred
-  | .prefixValid a l _ => (lastPI? a l (prefixesOf ra)).map fun p => expiry now p.valid
+  | .prefixAutonomous pl _ => (lastPI? pl (prefixesOf ra)).map fun p => b2i p.autonomous
+  | .prefixOnLink pl _ => (lastPI? pl (prefixesOf ra)).map fun p => b2i p.onLink
+  | .prefixPreferred pl _ => (lastPI? pl (prefixesOf ra)).map fun p => expiry now p.preferred
+  | .prefixValid pl _ => (lastPI? pl (prefixesOf ra)).map fun p => expiry now p.valid
 
 /-- What one delivered message says about gauge `s`. -/
 def eventGauge (e : Event) (s : Series) : Option Int :=
@@ -91,24 +155,30 @@ def touchedBy (e : Event) : List Series :=
     [.flagManaged e.host, .flagOther e.host] ++
     (if ra.routerLifetime ≠ 0 then [.defaultRoute e.host] else []) ++
     (prefixesOf ra).flatMap fun p =>
-      [.prefixAutonomous p.addr p.len e.host, .prefixOnLink p.addr p.len e.host,
-       .prefixPreferred p.addr p.len e.host, .prefixValid p.addr p.len e.host]
+      [.prefixAutonomous p.label e.host, .prefixOnLink p.label e.host,
+       .prefixPreferred p.label e.host, .prefixValid p.label e.host]
   | .other _ => []
 
 def touched (evs : List Event) : List Series := evs.flatMap touchedBy
+
+/-- router `r` sent an RA with a Prefix Information option of malformed length -/
+def sentMalformed (evs : List Event) (r : Nat) : Bool :=
+  evs.any fun e => e.host == r && !wellFormedMsg e.msg
 
 def keys (obs : List (Series × Int)) : List Series := obs.map Prod.fst
 
 /-- no label tuple reported twice -/
 def uniqueKeys (obs : List (Series × Int)) : Bool := decide (keys obs).Nodup
 
-/-- every observed sample is the expected one (in particular: no unexpected series) -/
+/-- every observed sample is the expected one (in particular: no unexpected series); an
+    `invalid Prefix` series is tolerated, with any value, iff its router sent a malformed option -/
 def sound (evs : List Event) (obs : List (Series × Int)) : Bool :=
-  obs.all fun (s, v) => expected evs s == some v
+  obs.all fun (s, v) =>
+    if outOfScope s then sentMalformed evs (seriesHost s) else expected evs s == some v
 
-/-- every series the sequence gives rise to is observed -/
+/-- every series the sequence gives rise to — save the `invalid Prefix` ones — is observed -/
 def complete (evs : List Event) (obs : List (Series × Int)) : Bool :=
-  (touched evs).all fun s => (keys obs).contains s
+  (touched evs).all fun s => outOfScope s || (keys obs).contains s
 
 def holds (evs : List Event) (obs : List (Series × Int)) : Bool :=
   uniqueKeys obs && sound evs obs && complete evs obs
